@@ -675,7 +675,14 @@ fn main() {
     for (k, c) in children.into_iter().enumerate() {
         let k = k + 1;
         let out = c.wait_with_output().expect("child output");
-        let rows = parse_out(&String::from_utf8_lossy(&out.stdout));
+        let child_text = String::from_utf8_lossy(&out.stdout).to_string();
+        let rows = parse_out(&child_text);
+        // a child prints nothing but its own result lines: anything else on its stdout was written by the generator calls
+        // (a build script's stdout is cargo's directive channel)
+        if let Some(stray) = child_text.lines().find(|l| !l.trim().is_empty() && !l.starts_with("(out ") && !l.starts_with("(child")) {
+            mismatches += 1;
+            report("*", 0, &format!("child{k} wrote to its standard output during generation: {}", stray.chars().take(100).collect::<String>()));
+        }
         if !out.status.success() {
             mismatches += 1;
             report("*", 0, &format!("child{k} exited with {:?}", out.status));
